@@ -86,6 +86,14 @@ func newC07Box(dir string) *c07Box {
 		must(os.WriteFile(filepath.Join(lv, victimName), []byte(canaryText), 0644))
 		must(os.WriteFile(filepath.Join(lv, victimName+".yaml"), []byte(canaryText), 0644))
 	}
+	// "twin" exists inside the root AND at every level above it: a link that starts resolving relative to a wrong
+	// directory finds something to point at
+	lv2 := s
+	for _, part := range []string{"", "l1", "l2", "l3", "l4", "cfg"} {
+		lv2 = filepath.Join(lv2, part)
+		must(os.MkdirAll(filepath.Join(lv2, "twin"), 0755))
+		must(os.WriteFile(filepath.Join(lv2, "twin", "Users"), []byte(canaryText), 0644))
+	}
 	must(os.MkdirAll(filepath.Join(env.Cfg, "sibling", "sub"), 0755))
 	must(os.WriteFile(filepath.Join(env.Cfg, "sibling", "sub", victimName), []byte(canaryText), 0644))
 	// content of the root
@@ -94,7 +102,30 @@ func newC07Box(dir string) *c07Box {
 	must(os.WriteFile(filepath.Join(env.FileRoot, "m.txt"), []byte("inside m"), 0644))
 	must(os.WriteFile(filepath.Join(env.FileRoot, "sub", "inner.txt"), []byte("inner"), 0644))
 	must(os.MkdirAll(filepath.Join(env.FileRoot, "uploads here"), 0755))
+	must(os.MkdirAll(filepath.Join(env.FileRoot, "twin"), 0755))
+	must(os.WriteFile(filepath.Join(env.FileRoot, "twin", "inside.txt"), []byte("inside twin"), 0644))
 	return &c07Box{env: env, s: s}
+}
+
+// badLinks: symbolic links below the root whose target resolves outside the root (dangling links are fine)
+func (b *c07Box) badLinks() []string {
+	var bad []string
+	root, _ := filepath.EvalSymlinks(b.env.FileRoot)
+	filepath.Walk(b.env.FileRoot, func(p string, info os.FileInfo, err error) error {
+		if err != nil || info.Mode()&os.ModeSymlink == 0 {
+			return nil
+		}
+		t, err := filepath.EvalSymlinks(p)
+		if err != nil {
+			return nil
+		}
+		if t != root && !strings.HasPrefix(t, root+string(filepath.Separator)) {
+			rel, _ := filepath.Rel(b.env.FileRoot, p)
+			bad = append(bad, rel+" -> "+t)
+		}
+		return nil
+	})
+	return bad
 }
 
 func (b *c07Box) snapOutside(allowed string) map[string]string {
@@ -269,6 +300,12 @@ func genC07(cs *CaseSet, rng *Rng, tier string, dir string) {
 		env.TakeSent()
 		after := box.snapOutside(allowed)
 		diff := strings.Join(snapDiff(before, after), "\n")
+		if bl := box.badLinks(); len(bl) > 0 {
+			diff += "\nLINK-LEADS-OUT: " + strings.Join(bl, "; ")
+			for _, l := range bl { // remove it so that later effects are judged on their own
+				os.Remove(filepath.Join(env.FileRoot, strings.SplitN(l, " -> ", 2)[0]))
+			}
+		}
 		leak := byte(0)
 		if leaks(res, extra...) {
 			leak = 1
@@ -396,6 +433,34 @@ func genC07(cs *CaseSet, rng *Rng, tier string, dir string) {
 					env.Srv.FileTransferMgr.Delete(ref)
 				}
 			}
+			return res, nil
+		})
+		// aliases that are moved around and then used: a link must keep pointing inside the root
+		effect("alias-then-move-then-use", env.FileRoot, [][]byte{[]byte(fmt.Sprint(k))}, func() ([]hotline.Transaction, [][]byte) {
+			for _, n := range []string{"twin", "file.txt"} {
+				os.Remove(filepath.Join(env.FileRoot, "sub", "deeper", n))
+				os.Remove(filepath.Join(env.FileRoot, "sub", n))
+				os.Remove(filepath.Join(env.FileRoot, "uploads here", n))
+			}
+			var res []hotline.Transaction
+			// alias of the folder "sub" (or of a file) created two levels down
+			src := []byte("twin")
+			if k%4 == 3 {
+				src = []byte("file.txt")
+			}
+			res = append(res, call(mobius.HandleMakeAlias, hotline.TranMakeFileAlias, hotline.NewField(hotline.FieldFileName, src),
+				hotline.NewField(hotline.FieldFileNewPath, encodePath([][]byte{[]byte("sub"), []byte("deeper")})))...)
+			// move the alias up one or two levels, or sideways
+			dsts := [][][]byte{{[]byte("sub")}, {}, {[]byte("uploads here")}}
+			dst := dsts[k%len(dsts)]
+			res = append(res, call(mobius.HandleMoveFile, hotline.TranMoveFile, hotline.NewField(hotline.FieldFileName, src),
+				hotline.NewField(hotline.FieldFilePath, encodePath([][]byte{[]byte("sub"), []byte("deeper")})),
+				hotline.NewField(hotline.FieldFileNewPath, encodePath(dst)))...)
+			// use it: list through it, create a folder through it
+			through := append(append([][]byte{}, dst...), src)
+			res = append(res, call(mobius.HandleGetFileNameList, hotline.TranGetFileNameList, hotline.NewField(hotline.FieldFilePath, encodePath(through)))...)
+			res = append(res, call(mobius.HandleNewFolder, hotline.TranNewFolder, hotline.NewField(hotline.FieldFilePath, encodePath(through)),
+				hotline.NewField(hotline.FieldFileName, []byte(fmt.Sprintf("made-through-alias-%d", k))))...)
 			return res, nil
 		})
 		// accounts: hostile logins in create / rename / delete
